@@ -27,6 +27,43 @@ def run(cmd, cwd=None, env=None, timeout=None, stdin=None):
     return p.returncode, p.stdout, time.time() - t0
 
 
+RSS_LIMIT_KB = int(os.environ.get("VERIF_RSS_LIMIT_GB", "8")) * 1024 * 1024
+
+
+def run_watched(cmd, cwd=None, env=None, timeout=None, stdin=None):
+    """Like run(), but kills the process when its resident set exceeds RSS_LIMIT_KB (a runaway
+    driver must not take the sandbox down) or when the timeout expires."""
+    import threading, tempfile
+    t0 = time.time()
+    with tempfile.TemporaryFile(mode="w+", errors="replace") as outf:
+        p = subprocess.Popen(cmd, cwd=cwd, env=env, stdout=outf, stderr=subprocess.STDOUT, stdin=stdin)
+        killed = []
+
+        def watch():
+            while p.poll() is None:
+                try:
+                    for l in open(f"/proc/{p.pid}/status"):
+                        if l.startswith("VmRSS:") and int(l.split()[1]) > RSS_LIMIT_KB:
+                            killed.append(f"resident memory above {RSS_LIMIT_KB // 1048576} GB")
+                            p.kill()
+                except OSError:
+                    pass
+                if timeout and time.time() - t0 > timeout:
+                    killed.append(f"timeout after {timeout}s")
+                    p.kill()
+                time.sleep(0.5)
+        th = threading.Thread(target=watch, daemon=True)
+        th.start()
+        rc = p.wait()
+        th.join(timeout=2)
+        outf.seek(0)
+        out = outf.read()
+    if killed:
+        out += "\n[check] process killed: " + killed[0] + "\n"
+        rc = rc or 1
+    return rc, out, time.time() - t0
+
+
 class Lock:
     def __init__(self, name):
         os.makedirs(WORK, exist_ok=True)
@@ -215,15 +252,15 @@ def run_driver(binpath, mode, outpath, seed=1, cases=100, maxops=100, inpath=Non
         env["VH_IN"] = inpath
     if extra_env:
         env.update(extra_env)
-    rc, out, dt = run([binpath, "-test.run", "^TestDriver$", "-test.count=1", "-test.timeout", "0"],
-                      cwd=WORK, env=env, timeout=timeout)
+    rc, out, dt = run_watched([binpath, "-test.run", "^TestDriver$", "-test.count=1", "-test.timeout", "0"],
+                              cwd=WORK, env=env, timeout=timeout)
     return rc == 0, out, dt
 
 
 def run_oracle(oracle, opspath, timeout=3000):
     exe = os.path.join(LEAN, ".lake", "build", "bin", oracle)
     with open(opspath) as f:
-        rc, out, dt = run([exe], stdin=f, timeout=timeout)
+        rc, out, dt = run_watched([exe], stdin=f, timeout=timeout)
     return rc == 0, out, dt
 
 
